@@ -104,6 +104,7 @@ type cluster struct {
 	discarding bool // the response being computed will never reach the client
 	onView    func()
 	onDialFail func()
+	dialFailUs map[string]int64 // address -> last time a dial to it failed
 	onFault    func(kind string)
 	onMetadata func(br *mbroker, c *simConn, corr int32, r *sarama.MetadataRequest, m *sarama.MetadataResponse)
 	onGarbage func(c *simConn, h reqHeader, kind string)
@@ -480,6 +481,10 @@ func (cl *cluster) respond(c *simConn, resp []byte, extraDelay time.Duration) {
 				c.deliveredCorr = map[int32]bool{}
 			}
 			c.deliveredCorr[int32(uint32(resp[4])<<24|uint32(resp[5])<<16|uint32(resp[6])<<8|uint32(resp[7]))] = true
+			if c.deliveredAt == nil {
+				c.deliveredAt = map[int32]int64{}
+			}
+			c.deliveredAt[int32(uint32(resp[4])<<24|uint32(resp[5])<<16|uint32(resp[6])<<8|uint32(resp[7]))] = cl.k.nowUs()
 		}
 		c.mu.Unlock()
 		c.deliver(resp)
@@ -510,6 +515,10 @@ func (cl *cluster) respondHeld(c *simConn, resp []byte) {
 				c.deliveredCorr = map[int32]bool{}
 			}
 			c.deliveredCorr[int32(uint32(resp[4])<<24|uint32(resp[5])<<16|uint32(resp[6])<<8|uint32(resp[7]))] = true
+			if c.deliveredAt == nil {
+				c.deliveredAt = map[int32]int64{}
+			}
+			c.deliveredAt[int32(uint32(resp[4])<<24|uint32(resp[5])<<16|uint32(resp[6])<<8|uint32(resp[7]))] = cl.k.nowUs()
 		}
 		c.mu.Unlock()
 		c.deliver(resp)
@@ -600,6 +609,15 @@ func (cl *cluster) matchRule(api string, br *mbroker, names func(topic string, p
 	return hit
 }
 
+func (cl *cluster) noteDialFail(addr string) {
+	cl.mu.Lock()
+	if cl.dialFailUs == nil {
+		cl.dialFailUs = map[string]int64{}
+	}
+	cl.dialFailUs[addr] = cl.k.nowUs()
+	cl.mu.Unlock()
+}
+
 func respHeader(corr int32, body []byte) []byte {
 	var w wr
 	w.i32(int32(len(body) + 4))
@@ -640,6 +658,17 @@ func (cl *cluster) handle(c *simConn, frame []byte) {
 		names = func(t string, _ int32) bool {
 			for _, x := range m.Topics {
 				if x == t {
+					return true
+				}
+			}
+			return false
+		}
+	}
+	if m, ok := body.(*sarama.OffsetRequest); ok {
+		blocks := sarama.VerifOffsetRequestBlocks(m)
+		names = func(t string, p int32) bool {
+			for _, b := range blocks {
+				if b.Topic == t && b.Partition == p {
 					return true
 				}
 			}
@@ -969,6 +998,29 @@ func (cl *cluster) handleProduce(c *simConn, h reqHeader, frameLen int) {
 		case fdo == "errcode" && faultHere && !fault.Append:
 			blk.err = int16(fault.Code)
 			cl.noteFault("errcode")
+			if fault.Arg == "election" && fault.Us > 0 && mp.leader >= 0 {
+				// the error announces an election: the partition has no leader for a while, then a (possibly
+				// different) broker takes over
+				old, to := mp.leader, fault.To
+				if cl.brokers[to] == nil {
+					to = old
+				}
+				mp.leader = -1
+				cl.noteFault("election-window")
+				cl.k.logf("view election %s: leaderless for %d us, then b%d", mp.key(), fault.Us, to)
+				cl.bumpView()
+				part := mp
+				cl.k.after(time.Duration(fault.Us)*time.Microsecond, func() {
+					if part.leader == -1 {
+						if cl.brokers[to] == nil {
+							return
+						}
+						part.leader = to
+						cl.k.logf("view election over %s -> b%d", part.key(), to)
+						cl.bumpView()
+					}
+				})
+			}
 		default:
 			kerr, base := cl.appendBatches(mp, sets[key], pr, c, fdo)
 			blk.err, blk.base, blk.logStart = kerr, base, mp.logStart
@@ -1010,6 +1062,10 @@ func (cl *cluster) handleProduce(c *simConn, h reqHeader, frameLen int) {
 	if fdo == "delay" {
 		delay = time.Duration(fault.Us) * time.Microsecond
 		cl.noteFault("delay")
+	}
+	if fdo == "errcode" && fault.SlowUs > 0 {
+		delay = time.Duration(fault.SlowUs) * time.Microsecond
+		cl.noteFault("slow-error-response")
 	}
 	cl.respond(c, respHeader(h.corr, encodeProduceResponse(h.ver, pr.parts, blocks)), delay)
 }
